@@ -4,14 +4,17 @@ import ast
 import json
 import warnings
 
-import vlib
 import xast
+
+try:
+    import vlib
+except ImportError:      # generation side (gen_cases.py) does not need it
+    vlib = None
 
 CHUNK = 120
 
 
-def make_programs(seed, tier, n, profile):
-    r = vlib.rng(seed, f"C02/tie/{tier}/{profile}")
+def make_programs(r, n, profile):
     g = xast.Gen(r, profile)
     out = []
     tries = 0
@@ -64,7 +67,7 @@ def run_model(ctx, progs, tag):
         lines = ["From Coq Require Import ZArith List Bool.", "From V.C03 Require Import PyAst.",
                  "From V.C02 Require Import Ast Builder Encode.", "Import ListNotations.", "Open Scope Z_scope."]
         for p in progs[c:c + CHUNK]:
-            lines.append(f"Eval vm_compute in (run_case {xast.sscoq(p['body'])} {'true' if p['returns_none'] else 'false'}).")
+            lines.append(f"Eval vm_compute in (run_case {p['coq']} {'true' if p['returns_none'] else 'false'}).")
         files[f"{tag}{c // CHUNK:03d}"] = "\n".join(lines) + "\n"
     outs = ctx.coq_eval_many(files)
     res = []
